@@ -158,12 +158,28 @@ def gen_burst(rng, root, files):
     return msgs
 
 
+def gen_backlog(rng, root, files):
+    """many pooled requests on a document of some size and the shutdown right behind them: requests still queued when
+    the shutdown arrives belong to "everything it received before the shutdown" and must be answered"""
+    g = goldgen.Gen(rng, max_depth=2)
+    f = rng.choice(files[:4])
+    uri = lsp.file_uri(f)
+    nm = os.path.basename(f)[:-4]
+    body, _, _ = g.gen_program(n_decls=rng.randint(60, 200), header="none")
+    msgs = [("notif", "textDocument/didChange", {"textDocument": {"uri": uri, "version": 2}, "contentChanges": [{"text": "class %s\n" % nm + body}]})]
+    for i in range(rng.randint(30, 90)):
+        m = rng.choice(SUPPORTED_POS + ["textDocument/diagnostic", "textDocument/diagnostic"])
+        pos = {"line": rng.randint(0, 200), "character": rng.choice([0, 2, 4, 7])}
+        msgs.append(("req", m, {"textDocument": {"uri": uri}, "position": pos} if m in SUPPORTED_POS else {"textDocument": {"uri": uri}}))
+    return msgs
+
+
 def run_script(binary, seed):
     rng = random.Random(seed)
     root = tempfile.mkdtemp(prefix="goldverif-c01-")
     try:
         files = make_workspace(rng, root)
-        msgs = gen_burst(rng, root, files) if seed % 8 == 7 else gen_script(rng, root, files)
+        msgs = gen_burst(rng, root, files) if seed % 8 == 7 else gen_backlog(rng, root, files) if seed % 8 == 3 else gen_script(rng, root, files)
         s = lsp.Session(binary, root)
         init = s.initialize(root)
         if init is None:
